@@ -410,7 +410,9 @@ def _find_shards():
         base = []
         for m in ("P", "S"):
             for i, lv in enumerate(spec.level_names(m)):
-                base.append({"model": m, "level": lv, "nr": 3 if i < 2 else 2})
+                # (PATIENT level: the pool has two patients, so three instances always contain two of one patient - the
+                #  whole shard would lie in the region of the listed finding C29-find-per-instance: keep two instances)
+                base.append({"model": m, "level": lv, "nr": 3 if (i < 2 and lv != "PATIENT") else 2})
     for sh in base:
         out.extend(_split(sh))
     return out
